@@ -226,8 +226,15 @@ def replay_left(w):
 
 def lstrip_tasks():
     tasks = []
+    seen = set()
     for names, fam in root_shapes().items():
         for j in range(len(names)):
+            # the segment only distinguishes the number of branches, the position of the matched one and whether it is the
+            # variable tag: one VC per such combination over the families
+            key = (len(names), j, names[j] == L.TOKEN_VARIABLE_BEGIN)
+            if key in seen:
+                continue
+            seen.add(key)
             tasks.append(LStripLeft(list(names), j, fam.split("/")[0]))
     tasks.append(LStripLeft(None, 0))
     return tasks
